@@ -1061,6 +1061,36 @@ Proof.
   repeat split; assumption.
 Qed.
 
+(* Token::set_leading_trivia: the reported length is the printed length of the modified token; putting such a
+   token into a tree through either rewriter keeps every cached length right (seeded change m8: a stale cached
+   token length) *)
+Lemma set_leading_trivia_len :
+  forall t tr,
+    tok_len (set_leading_trivia t tr) = trivia_len tr + text_len t /\
+    tok_len (set_leading_trivia t tr) = N.of_nat (length (token_bytes (set_leading_trivia t tr))) /\
+    token_bytes (set_leading_trivia t tr) = trivia_bytes tr ++ t_text t.
+Proof.
+  intros t tr. split; [reflexivity|]. split; [apply tok_len_bytes|reflexivity].
+Qed.
+
+Lemma replace_set_trivia_consistent :
+  forall k cs l i t tr, let g := GNode k cs l in
+    nth_error (leaves g) i = Some t ->
+    let t' := clone_with_token t (set_leading_trivia t tr) in
+    let g1 := token_rewrite nat_hook (replace_nth_t i t') nat_hook 0%nat g in
+    let g2 := rewrite (replace_nth_e i t') 0%nat g in
+    len_ok g1 = true /\ len_ok g2 = true /\
+    glen g1 = N.of_nat (length (bytes_of g1)) /\ glen g2 = N.of_nat (length (bytes_of g2)) /\
+    bytes_of g1 = bytes_of g2.
+Proof.
+  intros k cs l i t tr g Hn t' g1 g2.
+  destruct (replace_one_token_local_t k cs l i t t' Hn) as (_ & B & _ & D).
+  destruct (replace_one_token_local_e k cs l i t t' Hn) as (_ & B2 & _ & D2).
+  split; [exact D|]. split; [exact D2|].
+  split; [apply glen_bytes; exact D|]. split; [apply glen_bytes; exact D2|].
+  subst g1 g2 g. cbv zeta in B, B2. etransitivity; [exact B|symmetry; exact B2].
+Qed.
+
 (* ---- glue with the lexer proofs (added by the coordinator) ---- *)
 From RH Require Import Lex.SynLexerProofs.
 
